@@ -5,6 +5,8 @@
   from DXV/DYV/DZV/DEPTHZ describe the expected boxes / pillar cells.
 -/
 import OpmVerif.Proofs.GridVol
+import OpmVerif.Proofs.GridVolI
+import OpmVerif.Proofs.GridVolJ
 import OpmVerif.Model.Grid
 import OpmVerif.Proofs.GridIndex
 
@@ -172,6 +174,54 @@ theorem signedVolume_split (c : Corners K) :
       (fun _ _ _ ha hb hg _ => C_upper c.Y ha hb hg) (fun _ _ _ ha hb hg _ => C_upper c.Z ha hb hg)
   rw [hL, hU]
   exact signedVolOf_split (C c.X) (C c.Y) (C c.Z)
+
+theorem C_lowerI (r : Nat → K) {a b g : Nat} (ha : a ≤ 1) (hb : b ≤ 1) (hg : g ≤ 1) :
+    C (fun n => if n % 2 = 0 then r n else midCornerI r n) a b g = lowerCI (C r) a b g := by
+  rcases bin_cases ha with rfl | rfl <;> rcases bin_cases hb with rfl | rfl <;>
+    rcases bin_cases hg with rfl | rfl <;> simp [C, lowerCI, midCornerI] <;> ring
+
+theorem C_upperI (r : Nat → K) {a b g : Nat} (ha : a ≤ 1) (hb : b ≤ 1) (hg : g ≤ 1) :
+    C (fun n => if n % 2 = 0 then midCornerI r n else r n) a b g = upperCI (C r) a b g := by
+  rcases bin_cases ha with rfl | rfl <;> rcases bin_cases hb with rfl | rfl <;>
+    rcases bin_cases hg with rfl | rfl <;> simp [C, upperCI, midCornerI] <;> ring
+
+theorem C_lowerJ (r : Nat → K) {a b g : Nat} (ha : a ≤ 1) (hb : b ≤ 1) (hg : g ≤ 1) :
+    C (fun n => if n / 2 % 2 = 0 then r n else midCornerJ r n) a b g = lowerCJ (C r) a b g := by
+  rcases bin_cases ha with rfl | rfl <;> rcases bin_cases hb with rfl | rfl <;>
+    rcases bin_cases hg with rfl | rfl <;> simp [C, lowerCJ, midCornerJ] <;> ring
+
+theorem C_upperJ (r : Nat → K) {a b g : Nat} (ha : a ≤ 1) (hb : b ≤ 1) (hg : g ≤ 1) :
+    C (fun n => if n / 2 % 2 = 0 then midCornerJ r n else r n) a b g = upperCJ (C r) a b g := by
+  rcases bin_cases ha with rfl | rfl <;> rcases bin_cases hb with rfl | rfl <;>
+    rcases bin_cases hg with rfl | rfl <;> simp [C, upperCJ, midCornerJ] <;> ring
+
+/-- Additivity under i-subdivision, arbitrary corners. -/
+theorem signedVolume_splitI (c : Corners K) :
+    signedVolume (splitLowerI c) + signedVolume (splitUpperI c) = signedVolume c := by
+  have hL : signedVolume (splitLowerI c) =
+      signedVolOf (lowerCI (C c.X)) (lowerCI (C c.Y)) (lowerCI (C c.Z)) :=
+    signedVolOf_congr (fun _ _ _ ha hb hg _ => C_lowerI c.X ha hb hg)
+      (fun _ _ _ ha hb hg _ => C_lowerI c.Y ha hb hg) (fun _ _ _ ha hb hg _ => C_lowerI c.Z ha hb hg)
+  have hU : signedVolume (splitUpperI c) =
+      signedVolOf (upperCI (C c.X)) (upperCI (C c.Y)) (upperCI (C c.Z)) :=
+    signedVolOf_congr (fun _ _ _ ha hb hg _ => C_upperI c.X ha hb hg)
+      (fun _ _ _ ha hb hg _ => C_upperI c.Y ha hb hg) (fun _ _ _ ha hb hg _ => C_upperI c.Z ha hb hg)
+  rw [hL, hU]
+  exact signedVolOf_splitI (C c.X) (C c.Y) (C c.Z)
+
+/-- Additivity under j-subdivision, arbitrary corners. -/
+theorem signedVolume_splitJ (c : Corners K) :
+    signedVolume (splitLowerJ c) + signedVolume (splitUpperJ c) = signedVolume c := by
+  have hL : signedVolume (splitLowerJ c) =
+      signedVolOf (lowerCJ (C c.X)) (lowerCJ (C c.Y)) (lowerCJ (C c.Z)) :=
+    signedVolOf_congr (fun _ _ _ ha hb hg _ => C_lowerJ c.X ha hb hg)
+      (fun _ _ _ ha hb hg _ => C_lowerJ c.Y ha hb hg) (fun _ _ _ ha hb hg _ => C_lowerJ c.Z ha hb hg)
+  have hU : signedVolume (splitUpperJ c) =
+      signedVolOf (upperCJ (C c.X)) (upperCJ (C c.Y)) (upperCJ (C c.Z)) :=
+    signedVolOf_congr (fun _ _ _ ha hb hg _ => C_upperJ c.X ha hb hg)
+      (fun _ _ _ ha hb hg _ => C_upperJ c.Y ha hb hg) (fun _ _ _ ha hb hg _ => C_upperJ c.Z ha hb hg)
+  rw [hL, hU]
+  exact signedVolOf_splitJ (C c.X) (C c.Y) (C c.Z)
 
 end Vol
 
